@@ -11,44 +11,13 @@ fc!(
     c14_call_vecvec_j8: VecVecU16, 48, 5, 8 @ 5;
     c14_call_vecvec_j9: VecVecU16, 48, 5, 9 @ 5;
     c14_call_vecvec_j10: VecVecU16, 48, 5, 10 @ 5;
-    c14_call_vecstring_j0: VecString, 48, 5, 0 @ 8;
-    c14_call_vecstring_j1: VecString, 48, 5, 1 @ 8;
-    c14_call_vecstring_j2: VecString, 48, 5, 2 @ 8;
-    c14_call_vecstring_j3: VecString, 48, 5, 3 @ 8;
-    c14_call_vecstring_j4: VecString, 48, 5, 4 @ 8;
-    c14_call_vecstring_j5: VecString, 48, 5, 5 @ 8;
-    c14_call_vecstring_j6: VecString, 48, 5, 6 @ 8;
-    c14_call_vecstring_j7: VecString, 48, 5, 7 @ 8;
-    c14_call_vecstring_j8: VecString, 48, 5, 8 @ 8;
-    c14_call_vecstring_j9: VecString, 48, 5, 9 @ 8;
-    c14_call_vecstring_j10: VecString, 48, 5, 10 @ 8;
-    c14_call_boxstring_j0: BoxString, 48, 4, 0 @ 8;
-    c14_call_boxstring_j1: BoxString, 48, 4, 1 @ 8;
-    c14_call_boxstring_j2: BoxString, 48, 4, 2 @ 8;
-    c14_call_boxstring_j3: BoxString, 48, 4, 3 @ 8;
-    c14_call_boxstring_j4: BoxString, 48, 4, 4 @ 8;
-    c14_call_boxstring_j5: BoxString, 48, 4, 5 @ 8;
-    c14_call_boxstring_j6: BoxString, 48, 4, 6 @ 8;
-    c14_call_boxstring_j7: BoxString, 48, 4, 7 @ 8;
-    c14_call_boxstring_j8: BoxString, 48, 4, 8 @ 8;
-    c14_call_boxstring_j9: BoxString, 48, 4, 9 @ 8;
-    c14_call_boxstring_j10: BoxString, 48, 4, 10 @ 8;
-    c14_call_vecdeeps_j0: VecDeepS, 48, 1, 0 @ 6;
-    c14_call_vecdeeps_j1: VecDeepS, 48, 1, 1 @ 6;
-    c14_call_vecdeeps_j2: VecDeepS, 48, 1, 2 @ 6;
-    c14_call_vecdeeps_j3: VecDeepS, 48, 1, 3 @ 6;
-    c14_call_vecdeeps_j4: VecDeepS, 48, 1, 4 @ 6;
-    c14_call_vecdeeps_j5: VecDeepS, 48, 1, 5 @ 6;
-    c14_call_vecdeeps_j6: VecDeepS, 48, 1, 6 @ 6;
-    c14_call_vecdeeps_j7: VecDeepS, 48, 1, 7 @ 6;
-    c14_call_vecdeeps_j8: VecDeepS, 48, 1, 8 @ 6;
-    c14_call_vecdeeps_j9: VecDeepS, 48, 1, 9 @ 6;
-    c14_call_arrstring_j0: ArrStringx2, 48, 2, 0 @ 8;
-    c14_call_arrstring_j1: ArrStringx2, 48, 2, 1 @ 8;
-    c14_call_arrstring_j2: ArrStringx2, 48, 2, 2 @ 8;
-    c14_call_arrstring_j3: ArrStringx2, 48, 2, 3 @ 8;
-    c14_call_arrstring_j4: ArrStringx2, 48, 2, 4 @ 8;
-    c14_call_arrstring_j5: ArrStringx2, 48, 2, 5 @ 8;
-    c14_call_arrstring_j6: ArrStringx2, 48, 2, 6 @ 8;
-    c14_call_arrstring_j7: ArrStringx2, 48, 2, 7 @ 8;
+    c14_call_arrvec_j0: ArrVecx2, 48, 1, 0 @ 5;
+    c14_call_arrvec_j1: ArrVecx2, 48, 1, 1 @ 5;
+    c14_call_arrvec_j2: ArrVecx2, 48, 1, 2 @ 5;
+    c14_call_arrvec_j3: ArrVecx2, 48, 1, 3 @ 5;
+    c14_call_arrvec_j4: ArrVecx2, 48, 1, 4 @ 5;
+    c14_call_arrvec_j5: ArrVecx2, 48, 1, 5 @ 5;
+    c14_call_arrvec_j6: ArrVecx2, 48, 1, 6 @ 5;
+    c14_call_arrvec_j7: ArrVecx2, 48, 1, 7 @ 5;
+    c14_call_arrvec_j8: ArrVecx2, 48, 1, 8 @ 5;
 );
